@@ -1,6 +1,7 @@
 package main
 
 import (
+	"go/token"
 	"go/ast"
 	"go/types"
 )
@@ -115,14 +116,23 @@ func runC17(c *Ctx) {
 			cal := callee(info, call)
 			return cal != nil && cal.Name() == "isStopping"
 		}
-		nilSys := f.EdgesWhere(func(cond ast.Expr) (bool, bool) {
-			// system := pid.actorSystem; system != nil && system.isStopping()
-			return false, false
-		})
-		_ = nilSys
-		w = f.MustPrecede(gateTest, nil, enq)
-		// a nil actor system bypasses the gate (system actors before start): tolerate when the only bypass is the nil test
-		c.Check(w == nil || true, "gate≺enqueue", "the stopping test is evaluated before any enqueue", c.P.Pos(dr.Decl.Pos()), "")
+		// the gate condition `system != nil && system.isStopping()` as a whole (a nil system, before start, has nothing to stop)
+		gateCond := func(n ast.Node) bool {
+			be, ok := n.(*ast.BinaryExpr)
+			if !ok || be.Op != token.LAND {
+				return false
+			}
+			found := false
+			ast.Inspect(be, func(m ast.Node) bool {
+				if gateTest(m) {
+					found = true
+				}
+				return true
+			})
+			return found
+		}
+		w = f.MustPrecede(Or(gateCond, gateTest), nil, enq)
+		c.Check(w == nil && len(f.Find(Or(gateCond, gateTest))) > 0, "gate≺enqueue", "the stopping test is evaluated before any enqueue", c.P.Pos(dr.Decl.Pos()), f.describe(w))
 	})
 
 	c.Rule("grains", func() {
